@@ -19,6 +19,7 @@ def section_euler(rep, mutate=None):
     import z3
     from .. import symreal as S, enga
     S.new_ctx()
+    S.C.match_inverse_trig = True
     m = enga.install()
     T = m['T']
     if mutate:
@@ -176,7 +177,8 @@ def section_phi(rep, mutate=None):
     import numpy as np
     import z3
     from .. import symreal as S, enga
-    S.new_ctx([('eps', 1)])
+    S.new_ctx([("eps", 1)])
+    S.C.match_inverse_trig = True
     m = enga.install()
     T, EM = m['T'], m['EM']
     if mutate:
